@@ -103,6 +103,14 @@ func (w *World) inlineBracketHelpers(overlay map[string][]byte) (map[string][]by
 					call, _ = ast.Unparen(s.Results[0]).(*ast.CallExpr)
 					kind = "return"
 				}
+			case *ast.AssignStmt:
+				// `err := inTxn(rm, func() (err error) {…; return X})` followed by the final `return …, err`
+				if len(s.Lhs) == 1 && len(s.Rhs) == 1 && (s.Tok == token.DEFINE || s.Tok == token.ASSIGN) {
+					if _, isID := s.Lhs[0].(*ast.Ident); isID {
+						call, _ = ast.Unparen(s.Rhs[0]).(*ast.CallExpr)
+						kind = "assign"
+					}
+				}
 			}
 			if call == nil {
 				continue
@@ -115,6 +123,21 @@ func (w *World) inlineBracketHelpers(overlay map[string][]byte) (map[string][]by
 			switch kind {
 			case "return":
 				if i != len(list)-1 {
+					continue
+				}
+			case "assign":
+				okTail := false
+				if i == len(list)-2 {
+					if r, ok := list[i+1].(*ast.ReturnStmt); ok {
+						okTail = true
+						for _, e := range r.Results {
+							if _, isId := ast.Unparen(e).(*ast.Ident); !isId {
+								okTail = false
+							}
+						}
+					}
+				}
+				if !okTail || !h.returns {
 					continue
 				}
 			case "stmt":
@@ -206,6 +229,46 @@ func (w *World) inlineBracketHelpers(overlay map[string][]byte) (map[string][]by
 					return true
 				})
 				switch {
+				case kind == "assign":
+					// one return, the literal's last statement, one result
+					nret := 0
+					ast.Inspect(a.Body, func(y ast.Node) bool {
+						switch y.(type) {
+						case *ast.FuncLit:
+							return false
+						case *ast.ReturnStmt:
+							nret++
+						}
+						return true
+					})
+					if nret != 1 || len(a.Body.List) == 0 {
+						continue
+					}
+					last, isRet := a.Body.List[len(a.Body.List)-1].(*ast.ReturnStmt)
+					if !isRet || len(last.Results) != 1 || a.Type.Results == nil || len(a.Type.Results.List) != 1 {
+						continue
+					}
+					as := st.(*ast.AssignStmt)
+					outer := as.Lhs[0].(*ast.Ident).Name
+					named := ""
+					if rl := a.Type.Results.List[0]; len(rl.Names) == 1 {
+						named = rl.Names[0].Name
+						b.WriteString("var " + named + " " + text(rl.Type) + "\n")
+					} else if len(rl.Names) > 1 {
+						continue
+					}
+					b.WriteString(string(src[tf.Offset(a.Body.Lbrace)+1:tf.Offset(last.Pos())]) + "\n")
+					x := text(last.Results[0])
+					switch {
+					case named != "" && outer == named:
+						if x != named {
+							b.WriteString(outer + " = " + x + "\n")
+						}
+					case as.Tok == token.DEFINE:
+						b.WriteString(outer + " := " + x + "\n")
+					default:
+						b.WriteString(outer + " = " + x + "\n")
+					}
 				case kind == "return" && h.returns:
 					// the closure's returns are the caller's
 					b.WriteString(strings.TrimSuffix(strings.TrimPrefix(text(a.Body), "{"), "}"))
@@ -220,6 +283,9 @@ func (w *World) inlineBracketHelpers(overlay map[string][]byte) (map[string][]by
 				}
 				if kind == "return" {
 					b.WriteString("return " + text(a) + "()\n")
+				} else if kind == "assign" {
+					as := st.(*ast.AssignStmt)
+					b.WriteString(text(as.Lhs[0]) + " " + as.Tok.String() + " " + text(a) + "()\n")
 				} else {
 					b.WriteString(text(a) + "()\n")
 				}
@@ -1087,4 +1153,135 @@ func (w *World) restoreForClauses(overlay map[string][]byte) (map[string][]byte,
 func (w *World) vendoredFunc(f *Func) bool {
 	fn := w.Fset.Position(f.Decl.Pos()).Filename
 	return strings.HasSuffix(fn, "go_scanner.go") || strings.HasSuffix(fn, "go_terminal.go")
+}
+
+// foldFieldInits: `x := T{}` (or `&T{}`) followed directly by `x.A = a`, `x.B = b`, … (distinct fields, values
+// that do not mention x) is the keyed literal `x := T{A: a, B: b}` again; the fields are evaluated in the same
+// order either way.
+func (w *World) foldFieldInits(overlay map[string][]byte) (map[string][]byte, []string) {
+	edits := map[string][]textEdit{}
+	var done []string
+	for _, name := range w.SortedFuncNames() {
+		f := w.Funcs[name]
+		if w.vendoredFunc(f) || f.Decl.Body == nil {
+			continue
+		}
+		info := f.Pkg.TypesInfo
+		tf, fname := w.fileOf(f.Decl.Pos())
+		src := readSource(fname, overlay)
+		text := func(n ast.Node) string { return string(src[tf.Offset(n.Pos()):tf.Offset(n.End())]) }
+		n := 0
+		visit := func(list []ast.Stmt) {
+			for i := 0; i+1 < len(list); i++ {
+				as, ok := list[i].(*ast.AssignStmt)
+				if !ok || as.Tok != token.DEFINE || len(as.Lhs) != 1 || len(as.Rhs) != 1 {
+					continue
+				}
+				id, ok := as.Lhs[0].(*ast.Ident)
+				if !ok || info.Defs[id] == nil {
+					continue
+				}
+				obj := info.Defs[id]
+				e := ast.Unparen(as.Rhs[0])
+				if u, ok := e.(*ast.UnaryExpr); ok && u.Op == token.AND {
+					e = ast.Unparen(u.X)
+				}
+				lit, ok := e.(*ast.CompositeLit)
+				if !ok || len(lit.Elts) != 0 || lit.Type == nil {
+					continue
+				}
+				if _, isStruct := info.TypeOf(lit).Underlying().(*types.Struct); !isStruct {
+					continue
+				}
+				var kvs []string
+				seen := map[string]bool{}
+				j := i + 1
+				for ; j < len(list); j++ {
+					fa, ok := list[j].(*ast.AssignStmt)
+					if !ok || fa.Tok != token.ASSIGN || len(fa.Lhs) != 1 || len(fa.Rhs) != 1 {
+						break
+					}
+					sel, ok := fa.Lhs[0].(*ast.SelectorExpr)
+					if !ok {
+						break
+					}
+					base, ok := sel.X.(*ast.Ident)
+					if !ok || info.Uses[base] != obj || seen[sel.Sel.Name] || mentions(info, fa.Rhs[0], obj) {
+						break
+					}
+					if s := info.Selections[sel]; s == nil || len(s.Index()) != 1 {
+						break // a promoted field is not a key of the literal
+					}
+					seen[sel.Sel.Name] = true
+					kvs = append(kvs, sel.Sel.Name+": "+text(fa.Rhs[0]))
+				}
+				if len(kvs) == 0 {
+					continue
+				}
+				edits[fname] = append(edits[fname],
+					textEdit{tf.Offset(lit.Lbrace), tf.Offset(lit.Rbrace) + 1, "{" + strings.Join(kvs, ", ") + "}"},
+					textEdit{tf.Offset(list[i+1].Pos()), tf.Offset(list[j-1].End()), ""})
+				n++
+				i = j - 1
+			}
+		}
+		ast.Inspect(f.Decl.Body, func(x ast.Node) bool {
+			switch b := x.(type) {
+			case *ast.BlockStmt:
+				visit(b.List)
+			case *ast.CaseClause:
+				visit(b.Body)
+			case *ast.CommClause:
+				visit(b.Body)
+			}
+			return true
+		})
+		if n > 0 {
+			done = append(done, name)
+		}
+	}
+	if len(done) == 0 {
+		return nil, nil
+	}
+	out := applyEdits(w, overlay, edits)
+	if out == nil {
+		return nil, nil
+	}
+	return out, done
+}
+
+// litRunsInBracketHelper: the literal is the function argument of a call to a bracket helper.
+func (w *World) litRunsInBracketHelper(f *Func, lit *ast.FuncLit) bool {
+	found := false
+	ast.Inspect(f.Decl.Body, func(x ast.Node) bool {
+		call, ok := x.(*ast.CallExpr)
+		if !ok || found {
+			return !found
+		}
+		for _, a := range call.Args {
+			if ast.Unparen(a) != ast.Expr(lit) {
+				continue
+			}
+			callee := w.FuncOf(f.Callee(call))
+			if callee == nil {
+				continue
+			}
+			h := w.bracketHelperOf(callee)
+			if h == nil {
+				continue
+			}
+			// the literal must be the argument bound to the helper's function parameter
+			k := 0
+			for _, fl := range callee.Decl.Type.Params.List {
+				for _, nm := range fl.Names {
+					if k < len(call.Args) && ast.Unparen(call.Args[k]) == ast.Expr(lit) && callee.ObjOf(nm) == h.fnParam {
+						found = true
+					}
+					k++
+				}
+			}
+		}
+		return !found
+	})
+	return found
 }
